@@ -24,10 +24,11 @@
 EXTENDS Naturals, Sequences, FiniteSets
 
 CONSTANTS Uris,        \* abstract document names, e.g. {"a", "b", "c"}
-          MaxSteps
+          MaxSteps,
+          Part         \* "docs": documents and collections move, "texts": the available text resources move
 
-VARIABLES docs, coll, dflt, q, ans, steps
-vars == <<docs, coll, dflt, q, ans, steps>>
+VARIABLES docs, coll, dflt, texts, q, ans, steps
+vars == <<docs, coll, dflt, texts, q, ans, steps>>
 
 (* collections (XPath 3.1 2.1.2 "available collections" / "default collection"; F&O 14.6.3 fn:collection):   *)
 (*   coll  the named collection http://h/d/c1: "undef" or the set of its documents (given in name order)    *)
@@ -74,29 +75,49 @@ CollDocAnswer(f, u) ==
                             ELSE "either"      \* empty left operand AND failing right operand: XPath 3.1 2.3.4 allows both outcomes
          [] f = "cunion" -> IF u \in docs THEN <<"n", Card(coll \cup {u})>> ELSE Missing   \* count(collection("c1") | doc(u))
 
-Init == docs = {} /\ coll = Undef /\ dflt = Undef /\ q = <<"init">> /\ ans = "none" /\ steps = 0
+(* available text resources (XPath 3.1 2.1.2; F&O 14.6.5-7): texts = the key set of the mapping.  fn:unparsed-text     *)
+(* returns the text or raises FOUT1170; fn:unparsed-text-available is true exactly when it would return; the lines of  *)
+(* a text are its content split at newlines, a final empty line dropped.  Content of text u = Content[u] in the binding *)
+TextForms == {"tavail", "text", "tlines"}
+NoText == <<"FOUT1170">>
+TextAnswer(f, u) ==
+  CASE f = "tavail" -> IF u \in texts THEN "true" ELSE "false"
+    [] f = "text"   -> IF u \in texts THEN <<"content", u>> ELSE NoText
+    [] f = "tlines" -> IF u \in texts THEN <<"lines", u>> ELSE NoText
 
-Add(u)    == /\ u \notin docs /\ docs' = docs \cup {u} /\ q' = <<"add", u>> /\ ans' = "none" /\ UNCHANGED <<coll, dflt>>
-Remove(u) == /\ u \in docs    /\ docs' = docs \ {u}    /\ q' = <<"remove", u>> /\ ans' = "none" /\ UNCHANGED <<coll, dflt>>
-SetColl(c)    == /\ c # coll /\ coll' = c /\ q' = <<"setcoll">> /\ ans' = "none" /\ UNCHANGED <<docs, dflt>>
-SetDefault(c) == /\ c # dflt /\ dflt' = c /\ q' = <<"setdefault">> /\ ans' = "none" /\ UNCHANGED <<docs, coll>>
-Ask(f, sp, u)     == /\ UNCHANGED <<docs, coll, dflt>> /\ q' = <<"ask", f, sp, u>>     /\ ans' = Answer(f, u)
-AskPair(f, u, v)  == /\ UNCHANGED <<docs, coll, dflt>> /\ q' = <<"pair", f, u, v>>     /\ ans' = PairAnswer(f, u, v)
+Init == docs = {} /\ coll = Undef /\ dflt = Undef /\ texts = {} /\ q = <<"init">> /\ ans = "none" /\ steps = 0
 
-AskColl(f)       == /\ UNCHANGED <<docs, coll, dflt>> /\ q' = <<"coll", f>>       /\ ans' = CollAnswer(f)
-AskCollDoc(f, u) == /\ UNCHANGED <<docs, coll, dflt>> /\ q' = <<"colldoc", f, u>> /\ ans' = CollDocAnswer(f, u)
+Add(u)    == /\ u \notin docs /\ docs' = docs \cup {u} /\ q' = <<"add", u>> /\ ans' = "none" /\ UNCHANGED <<coll, dflt, texts>>
+Remove(u) == /\ u \in docs    /\ docs' = docs \ {u}    /\ q' = <<"remove", u>> /\ ans' = "none" /\ UNCHANGED <<coll, dflt, texts>>
+SetColl(c)    == /\ c # coll /\ coll' = c /\ q' = <<"setcoll">> /\ ans' = "none" /\ UNCHANGED <<docs, dflt, texts>>
+SetDefault(c) == /\ c # dflt /\ dflt' = c /\ q' = <<"setdefault">> /\ ans' = "none" /\ UNCHANGED <<docs, coll, texts>>
+Ask(f, sp, u)     == /\ UNCHANGED <<docs, coll, dflt, texts>> /\ q' = <<"ask", f, sp, u>>     /\ ans' = Answer(f, u)
+AskPair(f, u, v)  == /\ UNCHANGED <<docs, coll, dflt, texts>> /\ q' = <<"pair", f, u, v>>     /\ ans' = PairAnswer(f, u, v)
+
+AskColl(f)       == /\ UNCHANGED <<docs, coll, dflt, texts>> /\ q' = <<"coll", f>>       /\ ans' = CollAnswer(f)
+AskCollDoc(f, u) == /\ UNCHANGED <<docs, coll, dflt, texts>> /\ q' = <<"colldoc", f, u>> /\ ans' = CollDocAnswer(f, u)
+
+AddText(u)    == /\ u \notin texts /\ texts' = texts \cup {u} /\ q' = <<"addtext", u>> /\ ans' = "none" /\ UNCHANGED <<docs, coll, dflt>>
+RemoveText(u) == /\ u \in texts    /\ texts' = texts \ {u}    /\ q' = <<"removetext", u>> /\ ans' = "none" /\ UNCHANGED <<docs, coll, dflt>>
+AskText(f, sp, u) == /\ UNCHANGED <<docs, coll, dflt, texts>> /\ q' = <<"text", f, sp, u>> /\ ans' = TextAnswer(f, u)
 
 Next == /\ steps < MaxSteps /\ steps' = steps + 1
-        /\ \/ \E u \in Uris : Add(u) \/ Remove(u)
-           \/ \E f \in Forms, sp \in Spellings, u \in Uris : Ask(f, sp, u)
-           \/ \E f \in PairForms, u \in Uris, v \in Uris : AskPair(f, u, v)
-           \/ \E c \in CollVals : SetColl(c) \/ SetDefault(c)
-           \/ \E f \in CollForms : AskColl(f)
-           \/ \E f \in CollDocForms, u \in Uris : AskCollDoc(f, u)
+        /\ IF Part = "docs"
+           THEN \/ \E u \in Uris : Add(u) \/ Remove(u)
+                \/ \E f \in Forms, sp \in Spellings, u \in Uris : Ask(f, sp, u)
+                \/ \E f \in PairForms, u \in Uris, v \in Uris : AskPair(f, u, v)
+                \/ \E c \in CollVals : SetColl(c) \/ SetDefault(c)
+                \/ \E f \in CollForms : AskColl(f)
+                \/ \E f \in CollDocForms, u \in Uris : AskCollDoc(f, u)
+           ELSE \/ \E u \in Uris : AddText(u) \/ RemoveText(u)
+                \/ \E f \in TextForms, sp \in Spellings, u \in Uris : AskText(f, sp, u)
 Spec == Init /\ [][Next]_vars
 
 ---------------------------------------------------------------------------
-TypeOK == docs \subseteq Uris /\ steps \in 0..MaxSteps /\ coll \in CollVals /\ dflt \in CollVals
+TypeOK == docs \subseteq Uris /\ steps \in 0..MaxSteps /\ coll \in CollVals /\ dflt \in CollVals /\ texts \subseteq Uris
+
+(* unparsed-text-available is true exactly when unparsed-text returns *)
+InvTextAvailable == \A u \in Uris : (TextAnswer("tavail", u) = "true") = (TextAnswer("text", u) # NoText)
 
 (* a union with an available document never counts a node twice *)
 InvUnion == \A u \in docs : coll # Undef => CollDocAnswer("cunion", u) = <<"n", Card(coll) + (IF u \in coll THEN 0 ELSE 1)>>
